@@ -623,6 +623,16 @@ func (req *Request) Process(store StorageClient, stat *Stats) (resp *Response, e
 	case "verbosity", "flush_all":
 		resp.Status = "OK"
 
+	case "prepend", "decr":
+		// parsed by Read but not supported: release what Read accounted for
+		// the command, then close the connection as before
+		if req.Item != nil {
+			cmem.DBRL.SetData.SubSizeAndCount(req.Item.CArray.Cap)
+			req.Item.CArray.Free()
+		}
+		resp = nil
+		logger.Errorf("unsupported cmd: %s", req.Cmd)
+
 	case "quit":
 		resp = nil
 
